@@ -925,7 +925,11 @@ pub fn gen_set(content_seed: u64, set_ix: u32, cfg: &RunCfg, force_hash: Option<
     let (shape, total): (&'static str, u64) = match need {
         None => ("unfundable", u64::MAX),
         Some(n) => {
-            if underfund {
+            if underfund && r.chance(1, 2) {
+                // The sender declares (and intends) a sufficient total, but one
+                // part never arrives: the set waits and times out.
+                ("part-missing", n.saturating_add(r.below(3)))
+            } else if underfund {
                 let cut = match r.below(3) {
                     0 => 1,
                     1 => n / 2,
@@ -947,12 +951,19 @@ pub fn gen_set(content_seed: u64, set_ix: u32, cfg: &RunCfg, force_hash: Option<
     // *real* sum cannot overflow; declared fields may be anything.
     const PHYS_MAX: u64 = 2_100_000_000_000_000_000;
     let phys_total = total.min(PHYS_MAX);
-    let k = 1 + r.below(cfg.max_parts.max(1) as u64) as u32;
-    let parts = if phys_total == 0 {
+    let mut k = 1 + r.below(cfg.max_parts.max(1) as u64) as u32;
+    if shape == "part-missing" {
+        k = k.max(2);
+    }
+    let mut parts = if phys_total == 0 {
         vec![0]
     } else {
         split_amount(r, phys_total, k)
     };
+    if shape == "part-missing" && parts.len() >= 2 {
+        let drop = r.below(parts.len() as u64) as usize;
+        parts.remove(drop);
+    }
     // Expiries: comfortable by default.
     let comfortable: i64 = cfg.policy_delta as i64 + cfg.cltv_delta as i64 + 10;
     let mut htlcs = Vec::new();
